@@ -3,6 +3,7 @@
 # check against it (VERIF_REPO), print the checks that alarmed. A sound harness prints nothing but "silent" lines.
 cd "$(dirname "$0")/.."
 for patch in "$@"; do
+  patch=$(realpath "$patch")
   wt=/tmp/nw-$$
   git -C /repo worktree remove --force $wt 2>/dev/null; rm -rf $wt
   git -C /repo worktree add -q --detach $wt HEAD || exit 2
@@ -13,7 +14,7 @@ for patch in "$@"; do
     if [ $r -ne 0 ]; then
       alarms="$alarms $id(exit=$r)"
       echo "$patch: ALARM $id exit=$r"
-      echo "$out" | grep -a -A1 '^VIOLATION' | grep 'sub=' | head -4 | cut -c1-300
+      echo "$out" | grep -a -A2 '^VIOLATION' | grep -a -v '^VIOLATION\|^--' | head -6 | cut -c1-420
       echo "$out" | grep -a '^INCONCLUSIVE\|^BROKEN' | head -3 | cut -c1-300
     fi
   done
